@@ -27,11 +27,55 @@ Proof. exact P_C12.C12_sp_subsequence_of_peaks. Qed.
 Theorem C12_sp_ascending : forall tol (xs : list R), ascending (switched_peaks tol xs).
 Proof. exact P_C12.C12_sp_ascending. Qed.
 
-(** NOT proved (partial; decided by the exhaustive correspondence + the subsequence checker on implementation outputs):
-    exactly one switched peak per excursion at its largest |value|, other reported indices are zero-valued turning
-    points, consecutive ones do not share a strict sign, the global absolute maximum is included, and the
-    tol>0 switched-peak result is a subsequence of the tol=0 one. *)
+(** * switched peaks at zero tolerance, excursion by excursion
+    [excursion xs s a b] (P_C12): [a..b] is a maximal run of samples of strict sign [s] (s = 1 or -1): every sample of the run
+    has 0 < s*x, the sample before [a] (if any) and the sample after [b] (if any) do not. *)
+Theorem C12_excursion_spec : forall (xs : list R) s a b, excursion xs s a b <->
+  sdir s /\ (a <= b < length xs)%nat /\ (forall k, (a <= k <= b)%nat -> 0 < s * xat xs k) /\
+  (a = 0%nat \/ s * xat xs (a - 1) <= 0) /\ (S b = length xs \/ s * xat xs (S b) <= 0).
+Proof. intros; reflexivity. Qed.
+(** every non-zero sample lies in an excursion *)
+Theorem C12_excursion_exists : forall (xs : list R) k, (k < length xs)%nat -> xat xs k <> 0 ->
+  exists s a b, excursion xs s a b /\ (a <= k <= b)%nat.
+Proof. exact P_C12.excursion_exists. Qed.
+(** each excursion contains exactly one switched peak, and it attains the largest |value| of the excursion *)
+Theorem C12_sp_one_per_excursion : forall (xs : list R) s a b, excursion xs s a b ->
+  exists p, In p (switched_peaks 0 xs) /\ (a <= p <= b)%nat /\
+    (forall k, (a <= k <= b)%nat -> Rabs (xat xs k) <= Rabs (xat xs p)) /\
+    (forall q, In q (switched_peaks 0 xs) -> (a <= q <= b)%nat -> q = p).
+Proof. exact P_C12.C12_sp_one_per_excursion. Qed.
+(** ... more precisely it is the first sample of the excursion that attains it *)
+Theorem C12_sp_first_largest : forall (xs : list R) s a b p, excursion xs s a b -> In p (switched_peaks 0 xs) ->
+  (a <= p <= b)%nat -> forall k, (a <= k < p)%nat -> Rabs (xat xs k) < Rabs (xat xs p).
+Proof. exact P_C12.C12_sp_first_largest. Qed.
+(** any other switched peak is a zero-valued reported peak (index 0, a turning point or the final plateau: C11_exact) *)
+Theorem C12_sp_zero_or_in_excursion : forall (xs : list R) p, In p (switched_peaks 0 xs) ->
+  In p (peaks xs) /\ (xat xs p = 0 \/ exists s a b, excursion xs s a b /\ (a <= p <= b)%nat).
+Proof. exact P_C12.C12_sp_zero_or_in_excursion. Qed.
+(** consecutive switched peaks do not share a strict sign *)
+Theorem C12_sp_consecutive_signs : forall (xs : list R) l1 p q l2,
+  switched_peaks 0 xs = l1 ++ p :: q :: l2 -> xat xs p * xat xs q <= 0.
+Proof. exact P_C12.C12_sp_consecutive_signs. Qed.
+(** therefore the global absolute maximum is always included *)
+Theorem C12_sp_global_abs_max : forall (xs : list R), xs <> [] ->
+  exists p, In p (switched_peaks 0 xs) /\ forall k, (k < length xs)%nat -> Rabs (xat xs k) <= Rabs (xat xs p).
+Proof. exact P_C12.C12_sp_global_abs_max. Qed.
+(** with a positive tolerance the switched peaks are a subsequence of the zero-tolerance switched peaks *)
+Theorem C12_sp_tol_subsequence : forall tol (xs : list R), 0 <= tol ->
+  subl (switched_peaks tol xs) (switched_peaks 0 xs).
+Proof. exact P_C12.C12_sp_tol_subsequence. Qed.
 
+(** Every clause of the property is now a theorem about the model. Still decided by the correspondence only: that the
+    declarative model ([peaks] as a filter, [sp_loop] as a fold) is what the ediff1d/where/take pipeline and the Python loop
+    compute. *)
+
+(** the excursion hypotheses are met by a concrete series: [0; 2; 3; -1] has the excursion [1..2] of sign +1 *)
+Example C12_excursion_nonvacuous : excursion [0; 2; 3; -1]%R 1 1 2.
+Proof.
+  split; [now left|]. split; [cbn; lia|]. split.
+  - intros k Hk. assert (Hc : k = 1%nat \/ k = 2%nat) by lia. destruct Hc as [-> | ->]; unfold xat; cbn; lra.
+  - split; [right|right]; unfold xat; cbn; lra.
+Qed.
 Example C12_nonvacuous : zero_crossings false 0 [1; 0; -1; 0; 2]%R = [0; 1; 3]%nat.
 Proof.
   unfold zero_crossings, zc0, zc_test, xat. cbn [length seq filter nth]. numR.
